@@ -38,10 +38,10 @@ type wpCfg struct {
 }
 
 type wpEvent struct {
-	kind string // call lock leader flushed accept overflow group applied publish ack handoff release ret sent
-	w    int    // writer call id (or -1)
+	kind    string // call lock leader flushed accept overflow group applied publish ack handoff release ret sent
+	w       int    // writer call id (or -1)
 	a, b, c uint64
-	s    string
+	s       string
 }
 
 type wpRun struct {
@@ -99,7 +99,11 @@ func (wr *wpRun) sink(point string, args []interface{}) {
 		seq, _ := arg(0).(uint64)
 		n, _ := arg(1).(int)
 		nb, _ := arg(2).(int)
-		wr.log(wpEvent{kind: "group", w: -1, a: seq, b: uint64(n), c: uint64(nb)})
+		e := wpEvent{kind: "group", w: -1, a: seq, b: uint64(n), c: uint64(nb)}
+		if sy, _ := arg(3).(bool); sy {
+			e.s = "sync"
+		}
+		wr.log(e)
 	case "w.applied":
 		wr.log(wpEvent{kind: "applied", w: -1})
 	case "w.publish":
@@ -112,6 +116,13 @@ func (wr *wpRun) sink(point string, args []interface{}) {
 	case "w.release":
 		wr.log(wpEvent{kind: "release", w: -1})
 	}
+}
+
+func b2u(b bool) uint64 {
+	if b {
+		return 1
+	}
+	return 0
 }
 
 func (wr *wpRun) fail(sig, msg string) {
@@ -203,7 +214,7 @@ func runWp(cfg wpCfg) (*wpRun, map[string]int) {
 					k := []byte(fmt.Sprintf("k%06d", id))
 					keys = [][]byte{k}
 					wr.byKey.Store(string(k), id)
-					wr.log(wpEvent{kind: "call", w: id, a: uint64(merge)})
+					wr.log(wpEvent{kind: "call", w: id, a: uint64(merge), b: b2u(wo.Sync)})
 					err = db.Put(k, val, wo)
 				} else {
 					b := new(leveldb.Batch)
@@ -224,7 +235,7 @@ func runWp(cfg wpCfg) (*wpRun, map[string]int) {
 					viaTx = ilen > cfg.Opts.WriteBuffer && !cfg.Opts.DisableLargeBatchTx
 					if !viaTx {
 						wr.byBat.Store(b, id)
-						wr.log(wpEvent{kind: "call", w: id, a: uint64(merge)})
+						wr.log(wpEvent{kind: "call", w: id, a: uint64(merge), b: b2u(wo.Sync)})
 					}
 					before, blen := append([]byte(nil), b.Dump()...), b.Len()
 					err = db.Write(b, wo)
@@ -300,13 +311,29 @@ func runWp(cfg wpCfg) (*wpRun, map[string]int) {
 	wr.mu.Lock()
 	evs := append([]wpEvent(nil), wr.ev...)
 	wr.mu.Unlock()
-	leader := -1          // call id currently holding the write lock as a writer
-	var group []int       // accepted members of the current leader
+	leader := -1             // call id currently holding the write lock as a writer
+	var group []int          // accepted members of the current leader
 	groupOf := map[int]int{} // member → leader
 	rets := map[int]string{}
+	wantSync := map[int]bool{}
 	for i, e := range evs {
 		stats[e.kind]++
 		switch e.kind {
+		case "call":
+			wantSync[e.w] = e.b == 1
+		case "group":
+			// C04 through the merge: a group is journalled with Sync as soon as its leader or any merged member asked for it
+			if leader != -1 && !cfg.Opts.NoSync && e.s != "sync" {
+				for _, m := range append([]int{leader}, group...) {
+					if wantSync[m] {
+						wr.fail("group:sync-dropped", fmt.Sprintf("event %d: the group led by call %d (members %v) is journalled without Sync although call %d asked for Sync", i, leader, group, m))
+						break
+					}
+				}
+			}
+			if e.s == "sync" {
+				stats["group-synced"]++
+			}
 		case "leader":
 			if leader != -1 {
 				wr.fail("mutex:two-leaders", fmt.Sprintf("event %d: writer %d becomes leader while writer %d still leads", i, e.w, leader))
